@@ -466,6 +466,9 @@ func raceHandle(sc *Scenario, reps int) {
 						conn.EOF()
 						continue
 					}
+					if a[0] == "BLPOP" || a[0] == "BRPOP" {
+						continue // blocking pops wait on the virtual clock: covered by the controlled pass
+					}
 					conn.Send(model.EncodeCommand(h.B(a...)))
 					for {
 						_, v, st := conn.TakeReply(h.Patience)
@@ -507,6 +510,14 @@ func handleScenarios() []*Scenario {
 		th(c("SELECT", "1"), c("SELECT", "2"), c("SET", "@k0", "a")), th(c("SELECT", "1"), c("GET", "@k0")))
 	add("C20", "h:three-connections-first-use", 2, nil, []string{"c1", "c2", "c3"},
 		th(c("SELECT", "1"), c("SET", "@k0", "a")), th(c("SELECT", "1"), c("SET", "@k1", "b")), th(c("SELECT", "1"), c("EXISTS", "@k0", "@k1")))
+	// a connection blocked in BLPOP in one database while another connection pushes to the same key
+	// name in another database (and the other way round): waiting state is per database too
+	add("C20", "h:blpop-vs-push-in-other-db", 2, nil, []string{"c1", "c2"},
+		th(c("BLPOP", "@k0", "1")), th(c("SELECT", "1"), c("RPUSH", "@k0", "a"), c("LLEN", "@k0")))
+	s[len(s)-1].Timed = true
+	add("C20", "h:blpop-in-db1-vs-push-in-db0", 2, nil, []string{"c1", "c2"},
+		th(c("SELECT", "1"), c("BLPOP", "@k0", "1")), th(c("RPUSH", "@k0", "a"), c("EXISTS", "@k0")))
+	s[len(s)-1].Timed = true
 	// C03 / C19: replies and pushes share the subscriber's connection; a reply larger than any
 	// buffer (a list of 150 x 40-byte elements) is written while a message is published
 	var big []string
